@@ -117,7 +117,7 @@ CHECKS = [
     {"property_id": "C04",
      "text": "Coq theorems: at most one allocation per 5-tuple in every reachable state; a request leaves every other 5-tuple's allocation the same record and answers only its source; data/peer events change nothing and use only the sender's / owner's allocation; chk_C04 on real traces."
              + ' History level: chk_C04 is proved to hold on every trace of the model (control-connection close, Server.Close and traffic after Close included).'
-             + ' RFC 6062 part: multi-allocation TCP-relay histories (Connect, inbound peer connections, ConnectionBind) are run against Model/TcpRelay.v and judged by the isolation predicate of Check/C04TcpCheck.v (Connect answers to the sender only, ConnectionAttempt to the owner of the relayed address, teardown closes own peer connections only, 446 only for this allocation\'s own connection), which is proved to hold on every trace of that model (C04_tcp_isolation_on_every_model_trace).',
+             + ' RFC 6062 part: multi-allocation TCP-relay histories (Connect, inbound peer connections, ConnectionBind) are run against Model/TcpRelay.v and judged by the isolation predicate of Check/C04TcpCheck.v (Connect answers to the sender only, ConnectionAttempt to the owner of the relayed address, teardown closes own peer connections only, 446 only for this allocation\'s own connection, ConnectionBind only by the user of the allocation the connection was announced to), which is proved to hold on every trace of that model (C04_tcp_isolation_on_every_model_trace).',
      "note": RELAY_NOTE,
      "technique": "Coq proof (inductive invariants / step characterisation over all histories) + differential correspondence of Model/Relay.v against the real turn.Server under virtual time, property predicate evaluated on the observed traces"},
     {"property_id": "C05",
@@ -142,7 +142,7 @@ CHECKS = [
      "technique": "Coq proof (inductive invariants / step characterisation over all histories) + differential correspondence of Model/Relay.v against the real turn.Server under virtual time, property predicate evaluated on the observed traces"},
     {"property_id": "C15",
      "text": 'Coq theorems: every step changes allocations/permissions/channels by exactly the net Created-Deleted callbacks, hence over every history callbacks balance against what exists and pair up when all has ended; chk_C15 on real traces for every teardown cause: expiry, Refresh 0, relay socket error, control connection closed (stream listeners), Server.Close, and traffic sent after Close. The observed listing accounts for every open socket/listener of the simulated network (open iff the server\'s own or the relay of a live allocation); timers and goroutines are observed only through their effects and the synctest bubble draining (partial).'
-             + ' History level: chk_C15 (balance after every step; a closed control connection\'s client has no allocation; after Server.Close the listing is empty and nothing happens any more) is proved to hold on every trace of the model; C15_control_connection_close, C15_server_close_leaves_nothing, C15_nothing_after_close.',
+             + ' History level: chk_C15 (balance after every step; a closed control connection\'s client has no allocation; after Server.Close the listing is empty and nothing happens any more) is proved to hold on every trace of the model; C15_control_connection_close, C15_server_close_leaves_nothing, C15_nothing_after_close. Teardown during a slow lifecycle callback: the forced schedules of the allocation package (threads parked inside the Created callbacks) are judged by Check/C15TdCheck.v (nothing published remains and callbacks pair up once every call has returned) - on the real code only, no theorem (partial).',
      "note": RELAY_NOTE,
      "technique": "Coq proof (inductive invariants / step characterisation over all histories) + differential correspondence of Model/Relay.v against the real turn.Server under virtual time, property predicate evaluated on the observed traces"},
     {"property_id": "C19",
